@@ -148,16 +148,46 @@ def audit(prop, extra_modules=()):
     res['build_ok'] = ok
     return res
 
+DRIVER_TMPL = """import {imports}
+/- GENERATED by harness/common.py: line-protocol driver for handler modules {mods}.
+   One op per line on stdin, one answer per line on stdout: `ok …` | `err <kind>` | `bad-op`. -/
+open DadiVerif
+
+def dispatch (line : String) : String :=
+  let toks := (line.trimAscii.toString.splitOn " ").filter (· ≠ "")
+  let hs : List (List String → Option String) := [{handlers}]
+  match hs.findSome? (fun h => h toks) with
+  | some r => r
+  | none => "bad-op"
+
+partial def loop (h : IO.FS.Stream) (out : IO.FS.Stream) : IO Unit := do
+  let line ← h.getLine
+  if line.isEmpty then return ()
+  out.putStrLn (dispatch line)
+  out.flush
+  loop h out
+
+def main : IO Unit := do loop (← IO.getStdin) (← IO.getStdout)
+"""
+
 class LeanDriver:
-    """`lake env lean --run Driver.lean` behind a line protocol"""
-    def __init__(self):
-        ok, log = lake_build(['DadiVerif'])
+    """`lake env lean --run drivers/Driver_<mods>.lean` behind a line protocol.  `modules` are the
+    handler modules DadiVerif/Driver/<M>.lean (each exports `DadiVerif.Driver.<M>.handle`)."""
+    def __init__(self, modules=('Integ',)):
+        modules = list(modules)
+        ok, log = lake_build(['DadiVerif.Driver.' + m for m in modules])
         self.build_ok = ok
         self.log = log
         self.p = None
         self.n = 0
         if ok:
-            self.p = subprocess.Popen(['lake', 'env', 'lean', '--run', 'Driver.lean'], cwd=LEAN,
+            ddir = os.path.join(LEAN, 'drivers'); os.makedirs(ddir, exist_ok=True)
+            path = os.path.join(ddir, 'Driver_%s.lean' % '_'.join(modules))
+            text = DRIVER_TMPL.format(imports='\nimport '.join('DadiVerif.Driver.' + m for m in modules), mods=modules,
+                                      handlers=', '.join('Driver.%s.handle' % m for m in modules))
+            if not os.path.exists(path) or open(path).read() != text:
+                with open(path, 'w') as f: f.write(text)
+            self.p = subprocess.Popen(['lake', 'env', 'lean', '--run', path], cwd=LEAN,
                                       stdin=subprocess.PIPE, stdout=subprocess.PIPE, stderr=subprocess.PIPE,
                                       text=True, bufsize=1)
     def ask(self, line):
@@ -172,6 +202,8 @@ class LeanDriver:
             raise Infra('model driver died: ' + err[-2000:])
         self.n += 1
         return out.rstrip('\n')
+    def ok(self):
+        return self.p is not None
     def close(self):
         if self.p is not None:
             try:
